@@ -114,7 +114,8 @@ class Report:
 
     def defer_error(self, text: str) -> None:
         """An idiom one rule could not interpret: the run ends as ANALYSIS-ERROR (exit 2) unless another rule located a violation."""
-        self.deferred_errors.append(text)
+        if text not in self.deferred_errors:
+            self.deferred_errors.append(text)
 
     def analysed(self, *funcs: Any) -> None:
         for f in funcs:
